@@ -95,6 +95,9 @@ def build(case):
     kind = case['kind']
     days = case.get('days') or list(range(n))        # may hold repeated labels
     idx = pd.DatetimeIndex([T0 + datetime.timedelta(days=i) for i in days])
+    _IDX['off'] = case.get('intidx')
+    if case.get('intidx') is not None:
+        idx = pd.Index([case['intidx'] + i for i in days])        # integer labels that are not the positions
     if kind == 'series':
         return pd.Series(cols[0], index=idx, dtype=float), cols
     if kind == 'arr1':
@@ -105,12 +108,21 @@ def build(case):
     return mat.copy(), cols
 
 
+_IDX = {'off': None}
+
+
+def _pos(index):
+    if _IDX['off'] is not None:
+        return [int(l) - _IDX['off'] for l in index]
+    return [int((t - T0).days) for t in index.to_pydatetime()]
+
+
 def values_of(res):
     import pandas as pd
     if isinstance(res, pd.Series):
-        return [res.values.tolist()], [int((t - T0).days) for t in res.index.to_pydatetime()]
+        return [res.values.tolist()], _pos(res.index)
     if isinstance(res, pd.DataFrame):
-        return [res.iloc[:, j].values.tolist() for j in range(res.shape[1])], [int((t - T0).days) for t in res.index.to_pydatetime()]
+        return [res.iloc[:, j].values.tolist() for j in range(res.shape[1])], _pos(res.index)
     a = np.asarray(res)
     if a.ndim == 1:
         return [a.tolist()], None
@@ -222,6 +234,8 @@ def gen_random(rng):
             cols[0] = [None] * n
     if rng.random() < 0.2:
         c_ = {'kind': kind, 'cols': cols, 'fn': 'nona', 'edge': rng.choice([None, None, 1, -1]), 'method': None, 'limit': None}
+        if kind in ('series', 'frame') and rng.random() < 0.2 and c_['edge'] is None:      # nona's edge option cuts through df_slice, which is about timeseries
+            c_['intidx'] = rng.choice([3, 100, -2])
         if kind in ('series', 'frame') and c_['edge'] is None and rng.random() < 0.3 and len(cols[0]) >= 2:
             days, dcur = [], 0
             for i in range(len(cols[0])):
@@ -237,9 +251,12 @@ def gen_random(rng):
     else:
         method = rng.choice(SINGLE)
     limit = rng.choice([None, None, 1, 2, 3])
+    intidx = rng.choice([3, 100, -2]) if (kind in ('series', 'frame') and rng.random() < 0.2) else None
     if any(isinstance(m, float) for m in (method if isinstance(method, list) else [method])):
         limit = None
     case = {'kind': kind, 'cols': cols, 'method': method, 'limit': limit, 'positional': rng.random() < 0.2}
+    if intidx is not None:
+        case['intidx'] = intidx
     if limit is not None and rng.random() < 0.25:
         case['np_limit'] = True
     if rng.random() < 0.2:
